@@ -12,6 +12,8 @@ pub mod c12;
 pub mod c13;
 pub mod rules;
 pub mod c14;
+pub mod c15;
+pub mod c17;
 pub mod c18;
 
 use crate::engine::{finish, Case, Coverage, Run, Stats, Violation};
@@ -35,6 +37,8 @@ fn table(prop: &str) -> Option<(RunFn, ReplayFn)> {
         "C12" => (c12::run, c12::replay),
         "C13" => (c13::run, c13::replay),
         "C14" => (c14::run, c14::replay),
+        "C15" => (c15::run, c15::replay),
+        "C17" => (c17::run, c17::replay),
         "C18" => (c18::run, c18::replay),
         _ => return None,
     })
